@@ -164,7 +164,11 @@ impl<Aux> Vm<'_, Aux> {
 
     #[inline]
     pub fn read_var(&self, name: VariableId) -> Option<Value> {
-        self.runtime_data.global_vars.get(name.0 as usize).cloned()
+        self.runtime_data
+            .global_vars
+            .get(name.0 as usize)
+            .copied()
+            .flatten()
     }
 
     #[must_use]
